@@ -75,6 +75,9 @@ func c05GenThreadingSeq(r *verifh.Rng) []verifh.Section {
 		}
 		secs = append(secs, verifh.Section{Cfg: fmt.Sprintf("kind=runner mode=seq n=%d", n), Ops: ops})
 	}
+	// capacity 0: ScheduleImmediately is always busy, Wait returns at once, no slot is ever free (Schedule would block
+	// for ever and is left out)
+	secs = append(secs, verifh.Section{Cfg: "kind=runner mode=seq n=0", Ops: []string{"try", "probe", "wait", "try", "finish", "try", "probe", "wait"}})
 	// several TaskRunners alive at once, each checked against its own concurrency
 	for i := 0; i < verifh.Scale(8, 100); i++ {
 		k := r.Range(2, 3)
@@ -102,13 +105,13 @@ func c05GenThreadingConc(r *verifh.Rng) []verifh.Section {
 			fmt.Sprintf("run api=routinegroup pan=%d exits=%s rs=%d", r.Pick(0, 0, 50), r.PickS("s", "seg"), r.Intn(1<<30)),
 		}})
 	}
-	for i := 0; i < verifh.Scale(5, 150); i++ {
+	for i := 0; i < verifh.Scale(5, 70); i++ {
 		n := r.Pick(1, 2, 3, r.Range(1, 8))
 		g := r.Pick(1, 2, n+1, r.Range(2, 8))
 		secs = append(secs, verifh.Section{Cfg: fmt.Sprintf("kind=runner mode=conc n=%d", n), Ops: []string{
 			fmt.Sprintf("run g=%d iters=%d imm=%d pan=%d exits=%s rs=%d", g, r.Range(10, verifh.Scale(40, 120)), r.Pick(0, 30, 70), r.Pick(0, 10, 40), r.PickS("s", "seg", "e"), r.Intn(1<<30)),
 			fmt.Sprintf("run g=%d iters=%d imm=%d pan=%d exits=%s rs=%d", g, r.Range(5, 30), 50, 100, r.PickS("seg", "g", "se"), r.Intn(1<<30)),
-			fmt.Sprintf("waitprobe rounds=%d pan=%d exits=%s rs=%d", r.Range(600, verifh.Scale(1500, 4000)), r.Pick(0, 0, 30, 100), r.PickS("s", "seg"), r.Intn(1<<30)),
+			fmt.Sprintf("waitprobe rounds=%d pan=%d exits=%s rs=%d", r.Range(600, verifh.Scale(1500, 1500)), r.Pick(0, 0, 30, 100), r.PickS("s", "seg"), r.Intn(1<<30)),
 		}})
 	}
 	return secs
